@@ -282,11 +282,12 @@ def doc_operator(name, u, L, D, prm):
     raise KeyError(name)
 
 
-def t_fine_grid(term, D, N, frac, seed):
+def t_fine_grid(term, D, N, frac, seed, L=2.3):
+    """L: domain extent (very large / very small extents make the derivative symbols tiny / huge: guards with absolute tolerances and
+    precision losses show there; the deviation is then measured relative to the size of the oracle)"""
     ex, jnp = _ex()
     p, qq, fr = FRACS[frac]
     rng = np.random.default_rng(seed)
-    L = 2.3
     prm = dict(b=1.25, c=[0.25, -0.5, 0.75, -1.0], bl=[0.5, -0.75, 0.25], f=0.375, k=0.5)
     fun, _, _, C = make_term(term, D, N, L, fr, prm)
     u = rng.standard_normal((C,) + (N,) * D)
@@ -304,8 +305,9 @@ def t_fine_grid(term, D, N, frac, seed):
     uf = fine(full, N, M, D)
     of = doc_operator(term, uf, L, D, prm)
     oracle = coarse(of, N, D) * mask
-    err = np.max(np.abs(out - oracle)) / (1 + np.max(np.abs(oracle)))
-    return err < 1e-10, f"{term} D={D} N={N} frac={frac} (K={K}): deviation from the alias-free documented operator {err:.3e}"
+    ref = np.max(np.abs(oracle))
+    err = np.max(np.abs(out - oracle)) / ((1 + ref) if L == 2.3 else max(ref, 1e-300))
+    return err < (1e-10 if L == 2.3 else 1e-9), f"{term} D={D} N={N} frac={frac} (K={K}) L={L}: deviation from the alias-free documented operator {err:.3e}"
 
 
 TESTS = dict(fine_grid=t_fine_grid)
@@ -313,6 +315,10 @@ TESTS = dict(fine_grid=t_fine_grid)
 
 def witness(ctx):
     deep = ctx.deep
+    # extreme domain extents for the terms with derivatives / inverse Laplacians
+    for L in (1e6, 1e-4) + ((6.3e4, 1e3) if deep else ()):
+        for term, D, N in (("projected_conv", 3, 6), ("vorticity_conv", 2, 8), ("conv_mc_noncons", 2, 8), ("gradient_norm", 1, 12)) + ((("conv_sc_cons", 3, 6),) if deep else ()):
+            ctx.check("fine_grid", dict(term=term, D=D, N=N, frac="2/3", seed=ctx.seed + N, L=L))
     g1 = range(4, 28) if deep else (6, 8, 12, 16, 18, 24, 13, 21)
     g2 = range(4, 14) if deep else (6, 8, 12, 9)
     g3 = (4, 6, 8) if deep else (6,)
